@@ -31,6 +31,9 @@ def _ops(cfg: HubConfig, info) -> List[Tuple[str, List[List]]]:
         if s not in present:
             if not churn:
                 continue
+            if s == "A" and getattr(cfg, "prehs", False):
+                # the TCP connection alone: requests sent before (or without) any handshake are requests like all others
+                out.append((f"tcp({s})", [["conn", s]]))
             if s in ("A", "G", "H", "P", "Q", "J"):
                 out.append((f"connect21({s})", a.connect_v2(s, name=s.encode(), allow_multiple=int(s in "PQ"))))
             elif s in ("B", "R", "X", "K"):
@@ -68,11 +71,16 @@ def _ops(cfg: HubConfig, info) -> List[Tuple[str, List[List]]]:
         elif churn:
             # present but not connected (refused or closed by the manager): the client goes away
             out.append((f"close({s})", a.close(s)))
+            if s == "A" and getattr(cfg, "prehs", False):
+                # ... or it has not said CONNECT yet: requests first, the handshake later on the same connection
+                out.append((f"sub-before-connect({s},T1)", a.ctl(s, P.MT_SUBSCRIBE, T1)))
+                out.append((f"unsub-before-connect({s},T2)", a.ctl(s, P.MT_UNSUBSCRIBE, T2)))
+                out.append((f"handshake({s})", a.connect_v2(s, name=s.encode())[1:]))
     return out
 
 
 def build(tier="quick", tc=False, flip=False, subscribers="ABR", loggers="G", pairs="all", churn="", ctl="",
-          pre="", nw_ops=False) -> HubConfig:
+          pre="", nw_ops=False, prehs=False) -> HubConfig:
     slots = list(subscribers) + list(loggers) + ["M"]
     hid_vals = list(range(1, len(slots) + 1))
     if flip:
@@ -95,6 +103,7 @@ def build(tier="quick", tc=False, flip=False, subscribers="ABR", loggers="G", pa
     cfg.ctl = set(ctl)
     cfg.tier = tier
     cfg.nw_ops = nw_ops
+    cfg.prehs = prehs
     return cfg
 
 
@@ -117,6 +126,8 @@ def configs(tier: str) -> List[Any]:
             builder(tier=tier, subscribers="AB", loggers="G", pre="ABG", ctl="AB", pairs="none", nw_ops=True),
             # a second "logger" asking for the id of the connected logger (refused), a logger that connects with CONNECT alone
             builder(tier=tier, subscribers="BJ", loggers="GK", pre="BG", churn="JK", ctl="B", pairs="none"),
+            # requests before the handshake (and the handshake afterwards, on the same connection)
+            builder(tier=tier, subscribers="AB", loggers="G", pre="BG", churn="A", ctl="AB", pairs="none", prehs=True),
             # two instances of one module id: the acknowledgement goes to the sending connection only
             builder(tier=tier, subscribers="PQ", loggers="G", pre="PQG", ctl="PQ", churn="Q", pairs="none"),
         ]
@@ -128,6 +139,7 @@ def configs(tier: str) -> List[Any]:
         builder(tier=tier, subscribers="AB", loggers="GH", pre="B", churn="AGH", ctl="ABG", pairs="all", flip=True),
         builder(tier=tier, subscribers="AB", loggers="GH", pre="ABGH", ctl="ABG", pairs="none", nw_ops=True, tc=True),
         builder(tier=tier, subscribers="APQ", loggers="G", pre="APQG", ctl="APQ", churn="PQ", pairs="all"),
+        builder(tier=tier, subscribers="AB", loggers="GH", pre="BG", churn="AH", ctl="AB", pairs="all", prehs=True, tc=True),
     ]
 
 
